@@ -271,7 +271,35 @@ func genRevealTree(r *rand.Rand, id string, tier string) string {
 			root.Xs = append(root.Xs, g.elem(depth))
 		}
 	}
-	return root.String()
+	return revealPayload(root)
+}
+
+// payload: `K n <cfg> | e1 ; e2 ; …` (or `-` for no element): the receiver's elements are separated
+// by " ; " so that bin/check's shrinker can drop them one by one
+func revealPayload(root V) string {
+	var es []string
+	for _, x := range root.Xs {
+		es = append(es, x.String())
+	}
+	if len(es) == 0 {
+		es = []string{"-"}
+	}
+	return fmt.Sprintf("K %s %s | %s", root.Form, root.Cfg, strings.Join(es, " ; "))
+}
+
+func parseRevealPayload(payload string) V {
+	p := strings.SplitN(payload, " | ", 2)
+	hd := strings.Fields(p[0])
+	root := V{T: 'K', Form: hd[1], Cfg: parseCfg(hd[2])}
+	if len(p) > 1 {
+		for _, e := range strings.Split(p[1], " ; ") {
+			if e = strings.TrimSpace(e); e != "" && e != "-" {
+				x, _ := parseV(strings.Fields(e))
+				root.Xs = append(root.Xs, x)
+			}
+		}
+	}
+	return root
 }
 
 // ---------------------------------------------------------------------------
@@ -544,10 +572,19 @@ func collectPtrs(x any, m map[uintptr]string) {
 	}
 }
 
-var revealTimeout = 3 * time.Second
+// watchdog: generous for the first few timeouts (a loaded machine must not fake a deadlock),
+// short afterwards (a build that deadlocks does so on many cases)
+var revealTimeouts = 0
+
+func revealTimeout() time.Duration {
+	if revealTimeouts >= 3 {
+		return 100 * time.Millisecond
+	}
+	return 3 * time.Second
+}
 
 func runRevealTree(payload string) string {
-	v, _ := parseV(strings.Fields(payload))
+	v := parseRevealPayload(payload)
 	root := BuildStack(v)
 	before := Describe(root)
 	if before.String() != v.String() {
@@ -586,7 +623,8 @@ func runRevealTree(payload string) string {
 		if res != "ok" {
 			return res
 		}
-	case <-time.After(revealTimeout):
+	case <-time.After(revealTimeout()):
+		revealTimeouts++
 		return "DEADLOCK"
 	}
 	mu.Lock()
